@@ -1,6 +1,226 @@
 package main
 
-// runIds: mode ids (stub, filled in by its check).
-func runIds(script, out string) {
-	fatal("mode ids not implemented")
+import (
+	"bufio"
+	"crypto/rand"
+	"encoding/hex"
+	"fmt"
+	"net/http"
+	"os"
+	"sort"
+	"strings"
+	"sync"
+	"time"
+
+	"github.com/rivo/sessions"
+)
+
+// recordingReader wraps the deterministic stream and remembers what was read.
+type recordingReader struct {
+	r   *countingReader
+	buf []byte
+}
+
+func (r *recordingReader) Read(p []byte) (int, error) {
+	n, err := r.r.Read(p)
+	r.buf = append(r.buf, p[:n]...)
+	return n, err
+}
+
+// newSessionID obtains one id from generateSessionID through the public API.
+func newSessionID() (string, bool) {
+	resp := &respWriter{h: http.Header{}}
+	req := &http.Request{Method: "GET", Header: http.Header{}, RemoteAddr: "10.0.0.1:1"}
+	s, err := sessions.Start(resp, req, true)
+	if err != nil || s == nil {
+		return "", false
+	}
+	r := http.Response{Header: resp.h}
+	for _, c := range r.Cookies() {
+		// Set-Cookie -> Cookie round trip
+		req2 := &http.Request{Header: http.Header{}}
+		req2.AddCookie(&http.Cookie{Name: c.Name, Value: c.Value})
+		back, err := req2.Cookie(c.Name)
+		return c.Value, err == nil && back.Value == c.Value && sessions.VerifFields(s).ID == c.Value
+	}
+	return "", false
+}
+
+// runIds: script lines
+//   sid <n>             n session ids with the deterministic random stream
+//   rid <n>             RandomID(n) with the deterministic stream
+//   cuid <mac hex> <lastTime> <lastCounter> <step_ns>...   CUID calls separated by virtual sleeps
+//   stat <n>            n session ids and RandomID(22) values from the real CSPRNG: per-bit and per-symbol counts, collisions
+//   conc <g> <n>        g goroutines x n CUID calls: duplicates, per-goroutine order
+func runIds(script, outPath string) {
+	f, err := os.Create(outPath)
+	if err != nil {
+		fmt.Fprintln(os.Stderr, err)
+		os.Exit(3)
+	}
+	out = bufio.NewWriterSize(f, 1<<20)
+	defer out.Flush()
+	sessions.Persistence = sessions.ExtendablePersistenceLayer{}
+	sessions.MaxSessionCacheSize = 0
+	// long virtual sleeps must not wake the lock table's periodic clean-up hundreds of thousands of times
+	sessions.VerifMutexTuning(1<<20, 100*365*24*time.Hour, 200*365*24*time.Hour)
+	realReader := rand.Reader
+	data, err := os.ReadFile(script)
+	if err != nil {
+		fatal("%v", err)
+	}
+	for _, line := range strings.Split(string(data), "\n") {
+		tok := strings.Fields(line)
+		if len(tok) == 0 {
+			continue
+		}
+		switch tok[0] {
+		case "sid":
+			rr := &recordingReader{r: &countingReader{}}
+			rand.Reader = rr
+			for i := int64(0); i < atoi64(tok[1]); i++ {
+				rr.buf = rr.buf[:0]
+				v, rt := newSessionID()
+				emit("sid %s %s %d", q(v), hex.EncodeToString(rr.buf), b2i(rt))
+			}
+			rand.Reader = realReader
+		case "rid":
+			rr := &recordingReader{r: &countingReader{pos: 7}}
+			rand.Reader = rr
+			n := int(atoi64(tok[1]))
+			v, err := sessions.RandomID(n)
+			e := "-"
+			if err != nil {
+				e = "err"
+			}
+			hx := hex.EncodeToString(rr.buf)
+			if hx == "" {
+				hx = "-"
+			}
+			emit("rid %d %s %s %s", n, q(v), hx, e)
+			rand.Reader = realReader
+		case "cuid":
+			macb, _ := hex.DecodeString(tok[1])
+			var mac [6]byte
+			copy(mac[:], macb)
+			sessions.VerifSetCUIDState(mac, uint64(atoi64(tok[2])), uint64(atoi64(tok[3])))
+			emit("cuidstart %s %s %s", tok[1], tok[2], tok[3])
+			for _, st := range tok[4:] {
+				if d := atoi64(st); d > 0 {
+					time.Sleep(time.Duration(d))
+				}
+				now := time.Now()
+				v := sessions.CUID()
+				emit("cuid %d %d %s", now.Unix(), now.Nanosecond(), v)
+			}
+		case "stat":
+			n := int(atoi64(tok[1]))
+			var bits [128]int
+			var sym [256]int
+			seen := make(map[string]bool, n)
+			coll := 0
+			bad := 0
+			for i := 0; i < n; i++ {
+				v, ok := newSessionID()
+				if !ok || len(v) != 24 {
+					bad++
+					continue
+				}
+				if seen[v] {
+					coll++
+				}
+				seen[v] = true
+				raw, err := decode64(v)
+				if err != nil || len(raw) != 16 {
+					bad++
+					continue
+				}
+				for b := 0; b < 128; b++ {
+					if raw[b/8]&(1<<(7-uint(b%8))) != 0 {
+						bits[b]++
+					}
+				}
+				if i%16 == 0 {
+					r, err := sessions.RandomID(22)
+					if err != nil || len(r) != 22 {
+						bad++
+					}
+					for k := 0; k < len(r); k++ {
+						sym[r[k]]++
+					}
+				}
+			}
+			var sb strings.Builder
+			for b := 0; b < 128; b++ {
+				fmt.Fprintf(&sb, " %d", bits[b])
+			}
+			emit("statbits %d %d %d%s", n, coll, bad, sb.String())
+			sb.Reset()
+			keys := []int{}
+			for c := 0; c < 256; c++ {
+				if sym[c] > 0 {
+					keys = append(keys, c)
+				}
+			}
+			sort.Ints(keys)
+			for _, c := range keys {
+				fmt.Fprintf(&sb, " %d:%d", c, sym[c])
+			}
+			emit("statsym%s", sb.String())
+		case "conc":
+			g, n := int(atoi64(tok[1])), int(atoi64(tok[2]))
+			res := make([][]string, g)
+			var wg sync.WaitGroup
+			for i := 0; i < g; i++ {
+				wg.Add(1)
+				go func(i int) {
+					defer wg.Done()
+					for k := 0; k < n; k++ {
+						res[i] = append(res[i], sessions.CUID())
+					}
+				}(i)
+			}
+			wg.Wait()
+			seen := map[string]bool{}
+			dup, unordered, badshape := 0, 0, 0
+			for i := 0; i < g; i++ {
+				for k, v := range res[i] {
+					if seen[v] {
+						dup++
+					}
+					seen[v] = true
+					if len(v) != 11 {
+						badshape++
+					}
+					if k > 0 && !(res[i][k-1] < v) {
+						unordered++
+					}
+				}
+			}
+			emit("conc %d %d dup=%d unordered=%d badshape=%d", g, n, dup, unordered, badshape)
+		}
+	}
+}
+
+func decode64(s string) ([]byte, error) {
+	const al = "ABCDEFGHIJKLMNOPQRSTUVWXYZabcdefghijklmnopqrstuvwxyz0123456789+/"
+	var out []byte
+	var acc, nb uint
+	for i := 0; i < len(s); i++ {
+		if s[i] == '=' {
+			break
+		}
+		p := strings.IndexByte(al, s[i])
+		if p < 0 {
+			return nil, fmt.Errorf("bad symbol")
+		}
+		acc = acc<<6 | uint(p)
+		nb += 6
+		if nb >= 8 {
+			nb -= 8
+			out = append(out, byte(acc>>nb))
+			acc &= (1 << nb) - 1
+		}
+	}
+	return out, nil
 }
